@@ -12,6 +12,7 @@ CONSTANTS Stoppers = {"s1", "s2"}
  Replayable = TRUE
  WriteClients = {"c1"}
  WritingOutlivesRun = FALSE
+ StopCheckThenAct = FALSE
  MaxPolls = 1
  PollOnce = FALSE
  SimDepth = 40
